@@ -160,6 +160,9 @@ def schema_errors(record) -> list[str]:
 # T4: lexical shape of execute()
 # ---------------------------------------------------------------------------------------------
 
+PUBLISH_OUTSIDE = False
+
+
 def _calls(node, name):
     return [n for n in ast.walk(node) if isinstance(n, ast.Call) and
             (getattr(n.func, "attr", None) == name or getattr(n.func, "id", None) == name)]
@@ -284,11 +287,59 @@ def extract_lifecycle_shape(src: str):
     return shape, notes
 
 
+def extract_publish_outside(src: str) -> bool:
+    """Is every `_publish` call of execute() placed inside the pipeline-level try and outside the per-node try?  (A failure of the
+    transport then goes straight to the pipeline-level handler; inside the per-node try it would be reported against a node
+    that already has its SER.)  Conservative: no call found, or a structure not recognised, gives False."""
+    tree = ast.parse(src)
+    fn = None
+    for c in [n for n in ast.walk(tree) if isinstance(n, ast.ClassDef)]:
+        for f in c.body:
+            if isinstance(f, ast.FunctionDef) and f.name == "execute":
+                fn = f
+    if fn is None:
+        return False
+    parents = {}
+    for n in ast.walk(fn):
+        for ch in ast.iter_child_nodes(n):
+            parents[ch] = n
+    pubs = _calls(fn, "_publish")
+    submits = _calls(fn, "_submit_and_wait")
+    if not pubs or not submits:
+        return False
+
+    def trys_of(node):
+        out, cur = [], node
+        while cur in parents:
+            par = parents[cur]
+            if isinstance(par, ast.Try):
+                out.append((par, "body" if cur in par.body else "final" if cur in par.finalbody else "else" if cur in par.orelse else "?"))
+            if isinstance(par, ast.ExceptHandler):
+                out.append((parents[par], "handler"))
+            cur = par
+        return out
+    node_trys = [t for t, part in trys_of(submits[0]) if part == "body"]
+    if len(node_trys) < 2:
+        return False
+    node_try, pipe_try = node_trys[0], node_trys[-1]
+    for pcall in pubs:
+        chain = trys_of(pcall)
+        if any(t is node_try for t, _ in chain):
+            return False
+        if not any(t is pipe_try and part == "body" for t, part in chain):
+            return False
+    return True
+
+
 def translate_shape():
     shape, notes = extract_lifecycle_shape(ORCH.read_text())
+    global PUBLISH_OUTSIDE
+    PUBLISH_OUTSIDE = extract_publish_outside(ORCH.read_text())
     b = core.lean_bool
     body = "import SemantivaModel.Model.Trace\nnamespace SemantivaModel.Generated.C06\nopen SemantivaModel.Trace\n\n"
     body += "/-- " + ("; ".join(notes) or "lexical structure of SemantivaOrchestrator.execute").replace("-/", "- /") + " -/\n"
-    body += "def shape : LifecycleShape :=\n  { " + ",\n    ".join(f"{k} := {b(v)}" for k, v in shape.items()) + " }\n\nend SemantivaModel.Generated.C06\n"
+    body += "def shape : LifecycleShape :=\n  { " + ",\n    ".join(f"{k} := {b(v)}" for k, v in shape.items()) + " }\n\n"
+    body += "/-- is the `_publish` call placed after the per-node try (inside the pipeline-level one)? -/\n"
+    body += f"def publishOutside : Bool := {b(PUBLISH_OUTSIDE)}\n\nend SemantivaModel.Generated.C06\n"
     core.write_generated("C06", body, ["semantiva/execution/orchestrator/orchestrator.py (try/except/finally structure of execute)"])
     return shape, notes
